@@ -687,6 +687,18 @@ public:
             fmt::arg("deprecated_impl", make_deprecated(r.deprecated_since)));
     }
 
+    // the count passed for a nested group is the total over all entries of the
+    // enclosing groups, it can exceed the group's own `numInGroup` type
+    std::string get_size_bytes_param_type(
+        const sbe::group& g, const bool is_nested) const
+    {
+        if(is_nested)
+        {
+            return "::std::size_t";
+        }
+        return get_num_in_group_underlying_type(g);
+    }
+
     std::string get_num_in_group_underlying_type(const sbe::group& g) const
     {
         const auto& header = utils::get_schema_encoding_as<sbe::composite>(
@@ -798,7 +810,7 @@ public:
                 path.size()));
         }
 
-        param_types.push_back(get_num_in_group_underlying_type(g));
+        param_types.push_back(get_size_bytes_param_type(g, !path.empty()));
         has_data_members |= !g.members.data.empty();
         sum_terms.push_back(get_group_payload_size(g, param_names));
 
@@ -886,7 +898,7 @@ R"(static constexpr ::std::size_t size_bytes({params}) noexcept
             fmt::format("{}_num_in_group", fmt::join(path, "_")),
             param_names,
             path.size() - 1));
-        param_types.push_back(get_num_in_group_underlying_type(g));
+        param_types.push_back(get_size_bytes_param_type(g, path.size() > 1));
         has_data_members |= !g.members.data.empty();
 
         for(const auto& nested_group : g.members.groups)
